@@ -128,7 +128,13 @@ theorem parentX_static (c : Cfg) (ps : Ps) {T : XTable} (h : T.Readable) (me : C
     · simp [XOut.ofOut]
     · simp only
       cases hm : (me.pid == lowest) with
-      | true => simp [XOut.ofOut]
+      | true =>
+        have hwi : (stepOfX T).wi = T.read := rfl
+        rw [hwi, raiseX_plain c.goneRaises h me]
+        cases c.rootGuarded with
+        | false => simp [XOut.ofOut]
+        | true =>
+          cases (raiseIfPidReused c.goneRaises (lookOf T.plain) me).2 <;> simp [XOut.ofOut]
       | false =>
         simp only [Bool.false_eq_true, if_false]
         exact ⟨trivial, h1, h2⟩
